@@ -16,7 +16,7 @@ import time
 
 VERIF = os.path.dirname(os.path.dirname(os.path.abspath(__file__)))
 REPO = os.environ.get("VERIF_REPO", "/repo")
-CACHE = os.path.join(VERIF, ".cache")
+CACHE = os.path.join(VERIF, ".cache") if REPO == "/repo" else os.path.join(VERIF, ".cache", "alt_" + hashlib.sha1(REPO.encode()).hexdigest()[:10])
 DRIVER = os.path.join(VERIF, "driver", "target", "release", "mirfacts")
 
 CONFIGS = {
